@@ -52,6 +52,52 @@ Definition TOP : nat := slot_Call_onlyarg.      (* inside parentheses / call arg
 (* ---------- the printer of the core (mirrors Unparse.utoks; the equality of the two is evaluated on every run) ---------- *)
 Definition pparen (b : bool) (ts : list pt) : list pt := if b then PK "(" :: ts ++ [PK ")"] else ts.
 
+(* ---------- the parameter list of a lambda ---------- *)
+Section Items.
+  Variable D : Type.                 (* what stands for a default value: tokens in the printer, an expression in the proof *)
+  Inductive pitem := IName (x : ident) (d : option D) | ISlash | IStar (v : option ident) | IDStar (k : ident).
+
+  (* positional names; the last [length de] of them carry a default *)
+  Fixpoint zipd (names : list ident) (nd : nat) (de : list D) : list pitem :=
+    match names with
+    | [] => []
+    | x :: r =>
+        match nd with
+        | S k => IName x None :: zipd r k de
+        | O => match de with
+               | d :: de' => IName x (Some d) :: zipd r 0 de'
+               | [] => IName x None :: zipd r 0 []
+               end
+        end
+    end.
+  Fixpoint zipk (ko : list ident) (kd : list (option D)) : list pitem :=
+    match ko, kd with
+    | k :: ko', d :: kd' => IName k d :: zipk ko' kd'
+    | k :: ko', [] => IName k None :: zipk ko' []
+    | [], _ => []
+    end.
+  Definition litems (po ar : list ident) (va : option ident) (ko : list ident) (kw : option ident)
+             (de : list D) (kd : list (option D)) : list pitem :=
+    let names := po ++ ar in
+    let pos := zipd names (length names - length de) de in
+    let pos := match po with [] => pos | _ => firstn (length po) pos ++ ISlash :: skipn (length po) pos end in
+    let star := match va with Some v => [IStar (Some v)] | None => match ko with [] => [] | _ => [IStar None] end end in
+    let kwa := match kw with Some k => [IDStar k] | None => [] end in
+    pos ++ star ++ zipk ko kd ++ kwa.
+End Items.
+Arguments IName {D}. Arguments ISlash {D}. Arguments IStar {D}. Arguments IDStar {D}.
+Arguments zipd {D}. Arguments zipk {D}. Arguments litems {D}.
+
+Definition itoks_l (i : pitem (list pt)) : list pt :=
+  match i with
+  | IName x None => [PN x]
+  | IName x (Some d) => PN x :: PK "=" :: d
+  | ISlash => [PK "/"]
+  | IStar None => [PK "*"]
+  | IStar (Some v) => [PK "*"; PN v]
+  | IDStar k => [PK "**"; PN k]
+  end.
+
 (* `1.real` would be a float literal followed by a name: the unparser writes (1).real *)
 Definition int_literal (v : expr) : bool := match v with Constant (CInt z) => Z.leb 0 z | _ => false end.
 
@@ -71,7 +117,11 @@ Fixpoint pp (slot : nat) (e : expr) {struct e} : list pt :=
            | _, _ => []
            end) cs ops
     | IfExp t b o => pp slot_IfExp_body b ++ PK "if" :: pp slot_IfExp_test t ++ PK "else" :: pp slot_IfExp_orelse o
-    | Lambda _ _ _ _ _ _ _ body => PK "lambda" :: PK ":" :: pp slot_Lambda_body body
+    | Lambda po ar va ko kd kw de body =>
+        PK "lambda" ::
+        join [PK ","] (map itoks_l (litems po ar va ko kw (map (pp slot_Lambda_default) de)
+                                           (map (fun o => match o with Some x => Some (pp slot_Lambda_kwdefault x) | None => None end) kd)))
+        ++ PK ":" :: pp slot_Lambda_body body
     | NamedExpr t v => PN t :: PK ":=" :: pp slot_NamedExpr_value v
     | Attribute v a => pparen (int_literal v) (pp slot_Attribute_value v) ++ [PK "."; PN a]
     | Call f args kws =>
@@ -163,7 +213,11 @@ Definition pbody (e : expr) : list pt :=
          | _, _ => []
          end) cs ops
   | IfExp t b o => pp slot_IfExp_body b ++ PK "if" :: pp slot_IfExp_test t ++ PK "else" :: pp slot_IfExp_orelse o
-  | Lambda _ _ _ _ _ _ _ body => PK "lambda" :: PK ":" :: pp slot_Lambda_body body
+  | Lambda po ar va ko kd kw de body =>
+      PK "lambda" ::
+      join [PK ","] (map itoks_l (litems po ar va ko kw (map (pp slot_Lambda_default) de)
+                                         (map (fun o => match o with Some x => Some (pp slot_Lambda_kwdefault x) | None => None end) kd)))
+      ++ PK ":" :: pp slot_Lambda_body body
   | NamedExpr t v => PN t :: PK ":=" :: pp slot_NamedExpr_value v
   | Attribute v a => pparen (int_literal v) (pp slot_Attribute_value v) ++ [PK "."; PN a]
   | Call f args kws =>
@@ -213,7 +267,10 @@ Fixpoint core (e : expr) {struct e} : bool :=
   | Compare l ops cs => ec l && Nat.eqb (length ops) (length cs) && Nat.leb 1 (length cs)
                         && forallb (fun x => core x && negb (is_starred x)) cs
   | IfExp t b o => ec t && ec b && ec o
-  | Lambda [] [] None [] [] None [] body => ec body
+  | Lambda po ar va ko kd kw de body =>
+      ec body && Nat.leb (length de) (length (po ++ ar)) && Nat.eqb (length kd) (length ko) &&
+      forallb (fun x => core x && negb (is_starred x)) de &&
+      forallb (fun o => match o with Some x => core x && negb (is_starred x) | None => true end) kd
   | NamedExpr _ v => ec v
   | Attribute v _ => ec v
   | Call f args kws => ec f && forallb core args && forallb (fun kw => core (snd kw) && negb (is_starred (snd kw))) kws
@@ -253,6 +310,20 @@ Definition ecore (e : expr) : bool := core e && negb (is_starred e).
 (* ---------- the parser ---------- *)
 Inductive chain := CNone | CBool (o : boolop) | CCmp.
 
+(* the parameter lists collected so far (newest first) *)
+Record pst := mkP { q_po : list ident; q_ar : list ident; q_va : option ident; q_star : bool; q_ko : list ident;
+                    q_kd : list (option expr); q_kw : option ident; q_de : list expr }.
+Definition pst0 : pst := mkP [] [] None false [] [] None [].
+Definition p_name (st : pst) (x : ident) (d : option expr) : pst :=
+  if q_star st then mkP (q_po st) (q_ar st) (q_va st) true (x :: q_ko st) (d :: q_kd st) (q_kw st) (q_de st)
+  else mkP (q_po st) (x :: q_ar st) (q_va st) false (q_ko st) (q_kd st) (q_kw st)
+           (match d with Some e => e :: q_de st | None => q_de st end).
+Definition p_slash (st : pst) : pst := mkP (rev (q_ar st)) [] (q_va st) (q_star st) (q_ko st) (q_kd st) (q_kw st) (q_de st).
+Definition p_star (st : pst) (v : option ident) : pst := mkP (q_po st) (q_ar st) v true (q_ko st) (q_kd st) (q_kw st) (q_de st).
+Definition p_dstar (st : pst) (k : ident) : pst := mkP (q_po st) (q_ar st) (q_va st) (q_star st) (q_ko st) (q_kd st) (Some k) (q_de st).
+Definition p_lambda (st : pst) (body : expr) : expr :=
+  Lambda (q_po st) (rev (q_ar st)) (q_va st) (rev (q_ko st)) (rev (q_kd st)) (q_kw st) (rev (q_de st)) body.
+
 Inductive mode :=
 | MExpr (n : nat)                            (* an expression whose top operator has precedence <= n *)
 | MLoop (n : nat) (lft : expr) (ch : chain)  (* what may follow [lft] at level n *)
@@ -263,6 +334,7 @@ Inductive mode :=
 | MIfs (t i : expr) (ifs : list expr) (acc : list comprehension)
 | MDict (ks : list (option expr)) (vs : list expr)               (* a dict display before an item *)
 | MDSep (ks : list (option expr)) (vs : list expr)               (* ... after an item *)
+| MParams (n : nat) (st : pst)                                   (* the parameters of a lambda, then its body *)
 | MIndex                                                         (* the index of a subscription: an expression or a slice *)
 | MSliceUp (lower : option expr)                                 (* after the first colon *)
 | MSliceStep (lower upper : option expr).                        (* after the second colon *)
@@ -274,7 +346,7 @@ Inductive prefix := PLam (r : list pt) | PWal (t : ident) (r : list pt) | PUn (o
 Definition classify_prefix (ts : list pt) : prefix :=
   match ts with
   | PK s :: r =>
-      if String.eqb s "lambda" then (if hd_is ":" r then PLam (tl r) else PAtom)
+      if String.eqb s "lambda" then PLam r
       else if String.eqb s "not" then PUn Not r
       else if String.eqb s "-" then PUn USub r
       else if String.eqb s "+" then PUn UAdd r
@@ -446,6 +518,35 @@ Fixpoint pc (f : nat) (m : mode) (ts : list pt) {struct f} : option (expr * list
               else None
           | _ => None
           end
+    | MParams n st =>
+        if hd_is ":" ts then
+          match pc f' (MExpr slot_Lambda_body) (tl ts) with
+          | Some (b, r') => pc f' (MLoop n (p_lambda st b) CNone) r'
+          | None => None
+          end
+        else
+          let next := fun (st' : pst) (rest : list pt) =>
+            match rest with
+            | PK s :: r =>
+                if String.eqb s "," then pc f' (MParams n st') r
+                else if String.eqb s ":" then pc f' (MParams n st') rest else None
+            | _ => None
+            end in
+          match ts with
+          | PK s :: r =>
+              if String.eqb s "/" then next (p_slash st) r
+              else if String.eqb s "**" then match r with PN k :: r' => next (p_dstar st k) r' | _ => None end
+              else if String.eqb s "*" then match r with PN v :: r' => next (p_star st (Some v)) r' | _ => next (p_star st None) r end
+              else None
+          | PN x :: r =>
+              if hd_is "=" r then
+                match pc f' (MExpr slot_Lambda_default) (tl r) with
+                | Some (d, r') => next (p_name st x (Some d)) r'
+                | None => None
+                end
+              else next (p_name st x None) r
+          | _ => None
+          end
     | MIndex =>
         if hd_is ":" ts then pc f' (MSliceUp None) (tl ts)
         else
@@ -477,13 +578,7 @@ Fixpoint pc (f : nat) (m : mode) (ts : list pt) {struct f} : option (expr * list
         end
     | MExpr n =>
         match classify_prefix ts with
-        | PLam r =>
-            if Nat.leb node_prec_Lambda n then
-              match pc f' (MExpr slot_Lambda_body) r with
-              | Some (b, r') => pc f' (MLoop n (lambda0 b) CNone) r'
-              | None => None
-              end
-            else None
+        | PLam r => if Nat.leb node_prec_Lambda n then pc f' (MParams n pst0) r else None
         | PWal t r =>
             if Nat.leb node_prec_NamedExpr n then
               match pc f' (MExpr slot_NamedExpr_value) r with
